@@ -492,6 +492,10 @@ impl HelpTemplate<'_, '_> {
                     arg.get_id(),
                     longest
                 );
+            } else {
+                // Short-only flags are aligned without the `-x, ` prefix but can still be wider
+                // than the minimum (e.g. `-v...`)
+                longest = longest.max(display_width(&arg.to_string()));
             }
 
             let key = (sort_key)(arg);
